@@ -347,8 +347,9 @@ def consumers(prog, run, producer_order):
 def var_slot(prog, run):
     fi = prog.func(POLES)
     f = rel(prog.mods[fi.mod].path)
-    pf = astq.PrunedFn(fi, {"calc_unc": True})
+    pf = astq.IndexedFn(astq.PrunedFn(fi, {"calc_unc": True}))
     rets = [n for n in ast.walk(pf.node) if isinstance(n, ast.Return) and isinstance(n.value, ast.Tuple) and len(n.value.elts) >= 5]
+    rets = [n for n in rets if isinstance(n.value.elts[4], ast.Name)] or rets      # the return of the branch that computed the variances
     if not rets or not isinstance(rets[-1].value.elts[4], ast.Name):
         run.ob("R-var-slot", fi.qual, "returned variance table", None, "not found", file=f)
         return
